@@ -20,7 +20,8 @@ def random_action(cl, rng, w, state):
         if w.get(k, 0) > 0 and ids:
             cands.append((w[k], ('Tick', None, k[-1])))
     held = getattr(cl, 'script_held', set())
-    chans = [(i, j) for (i, j), q in cl.net.chan.items() if q and N[j].alive and (i, j) not in held]
+    # a held channel is not dead, just very slow: now and then one of its messages gets through
+    chans = [(i, j) for (i, j), q in cl.net.chan.items() if q and N[j].alive and ((i, j) not in held or rng.random() < 0.04)]
     if chans and w.get('deliver', 0) > 0:
         cands.append((w['deliver'], ('Deliver',)))
     if w.get('submit', 0) > 0 and state['ncmd'] < state['maxcmd'] and ids:
@@ -219,7 +220,14 @@ def _script(cl, script, rng):
                     out += [('Break', n, m), ('Notice', n, m), ('Notice', m, n)]
         elif s[0] == 'hold':        # stop delivering from one ordered channel (messages pile up): stale replies later
             ids = sorted(n for n in cl.nodes if cl.nodes[n].alive)
-            if s[1] == 'toleader':
+            if s[1] == 'fromleader':
+                ls = [(sn.obj.raftCurrentTerm, nid) for nid, sn in cl.nodes.items() if sn.alive and sn.obj._isLeader()]
+                if ls:
+                    l = max(ls)[1]
+                    f = rng.choice([x for x in ids if x != l])
+                    cl.script_held = {(l, f)}
+                    cl.script_isolated = f        # submissions are biased towards this follower
+            elif s[1] == 'toleader':
                 ls = [(sn.obj.raftCurrentTerm, nid) for nid, sn in cl.nodes.items() if sn.alive and sn.obj._isLeader()]
                 if ls:
                     l = max(ls)[1]
